@@ -87,7 +87,7 @@ def chk_path(inp):
     pairs = [(int(i), int(j)) for i, j in filters.filter_pairs_by_path(poses, delta, tol, ap)]
     D = _path(poses)
     n = len(poses)
-    eps = EPS * max(1.0, D[-1])
+    eps = 0.0 if inp.get("exact") else EPS * max(1.0, D[-1])   # integer grids: float arithmetic is exact
     f = []
     if not _valid(pairs, n):
         return ["valid_indices"]
@@ -231,7 +231,7 @@ def _cases(tier, seed):
                 for ap in (False, True):
                     if not ap and tol:
                         continue
-                    yield ("path", {"xs": xs, "delta": delta, "tol": tol, "all_pairs": ap})
+                    yield ("path", {"xs": xs, "delta": delta, "tol": tol, "all_pairs": ap, "exact": True})
     agrid = list(itertools.product([0, 1, 2, 3], repeat=4)) if tier == "quick" else list(itertools.product(range(5), repeat=5))
     for steps in agrid:
         angs = np.concatenate([[0.0], np.cumsum(steps)]) * (math.pi / 8)
